@@ -62,7 +62,7 @@ func Mutations1(base []byte, vals []byte, fn func(m []byte)) {
 // full-width digits, letters and punctuation, Arabic-Indic and mathematical digits, roman numeral code points, minus and
 // hyphen variants, no-break spaces). A 1-deviation mutant with one of them is one *character* away from a valid text.
 var Lookalikes = []string{"\u017f", "\u212a", "\u0131", "\u0130", "\uff11", "\uff10", "\uff21", "\uff41", "\uff2d", "\uff36", "\uff56", "\uff0e", "\uff0b", "\uff0d", "\u0661", "\u0660", "\U0001d7cf",
-	"\u2160", "\u2164", "\u2169", "\u2170", "\u216f", "\u2212", "\u2010", "\u2011", "\u00a0", "\u2007", "\u202f", "\u00e9", "\u00df", "\u01c5", "\u1e9e", "\u00b9", "\u00bd"}
+	"\u2160", "\u2164", "\u2169", "\u2170", "\u216f", "\u2212", "\u2010", "\u2011", "\u00a0", "\u2007", "\u202f", "\u00e9", "\u00df", "\u01c5", "\u1e9e", "\u00b9", "\u00bd", "\ufeff", "\u0085", "\u2028"}
 
 // MutationsTok: every substitution of one byte of base by a token and every insertion of a token (tokens may be multi-byte).
 func MutationsTok(base []byte, toks []string, fn func(m []byte)) {
@@ -81,6 +81,19 @@ func MutationsTok(base []byte, toks []string, fn func(m []byte)) {
 			buf = append(buf[:0], base[:i]...)
 			buf = append(buf, t...)
 			buf = append(buf, base[i:]...)
+			fn(buf)
+		}
+	}
+	// a token in place of as many bytes as it is long (the text keeps its length: a parser that checks the length first and
+	// then walks runes or truncates them to bytes is still reached)
+	for i := 0; i < n; i++ {
+		for _, t := range toks {
+			if len(t) < 2 || i+len(t) > n {
+				continue
+			}
+			buf = append(buf[:0], base[:i]...)
+			buf = append(buf, t...)
+			buf = append(buf, base[i+len(t):]...)
 			fn(buf)
 		}
 	}
